@@ -113,9 +113,25 @@ def _run(mod, prop, tier, seed, replay, jobs, tmp, t0):
             else:
                 notes.append('crash of shard not reproduced on its last case: rc=%r' % (r.rc,))
             extra.append(rr)
+    # shards that stopped making progress: re-run the bread-crumbed case alone, twice; if it does not finish either time it is a hang
+    confirmed_hang = set()
+    for idx, r in enumerate(results):
+        if r.status == 'timeout' and r.crumb is not None and r.spec.get('kind') != 'replay' and hasattr(mod, 'replay'):
+            s = dict(r.spec)
+            s.update({'kind': 'replay', 'cases': [r.crumb], 'case_limit_s': 60, 'confirm_hang': True})
+            again = [core.run_shards(prop, [dict(s)], tmp, 150, 1)[0] for _ in range(2)]
+            if all(a.status == 'timeout' for a in again):
+                confirmed_hang.add(idx)
+                again[0].viols.append({'t': 'viol', 'case': r.crumb, 'mech': None,
+                                       'detail': {'what': 'the case does not terminate: no progress for 60 s when run alone, twice (cases take milliseconds)', 'hang': True}})
+            else:
+                notes.append('a stalled shard was not reproduced on its last case alone')
+            extra.append(again[0])
     agg = aggregate(results + extra)
     inconclusive = []
-    for r in results:
+    for idx, r in enumerate(results):
+        if r.status == 'timeout' and idx in confirmed_hang:
+            continue
         if r.status == 'timeout':
             inconclusive.append('shard %s timed out (watchdog); last case: %s' % (r.spec.get('kind'), json.dumps(r.crumb)[:300]))
         elif r.status == 'error':
